@@ -1469,3 +1469,16 @@ Proof.
     cbn [combine map snd]. f_equal. apply IH. now injection Hk. }
   rewrite E, E1. apply strictly_inc_nseq. lia.
 Qed.
+
+(* metadata of any kind never touches the alias tables, the generators or the ack buffers: the
+   model has no event by which a metadata item could release or change an alias *)
+Lemma meta_keeps_tables s e :
+  (exists m, e = ArriveMeta m) \/ (exists p, e = ReadMeta p) ->
+  d_tabs (fst (dstep s e)) = d_tabs s /\ d_bufs (fst (dstep s e)) = d_bufs s /\
+  d_inbox (fst (dstep s e)) = d_inbox s /\
+  reads_of (snd (dstep s e)) = [] /\ acks_of (snd (dstep s e)) = [].
+Proof.
+  intros [[m ->]|[p ->]]; cbn [dstep].
+  - destruct (d_closed s); [auto|]. destruct (subscribed _ _ && _); auto.
+  - destruct (d_closed s && _); [auto|]. destruct (d_metabox s); auto.
+Qed.
